@@ -116,6 +116,11 @@ KeysStep(e) ==
            <<st, Robust(e, "C03")
              \cup (IF plain = {} \/ \E d \in plain : e.evs = d[2] THEN {}
                    ELSE {Dev("C03.esc", "state_after_lone_esc", <<e.prior, e.bytes, e.evs>>)})>>
+      [] e.ev = "LiveSplit" ->
+           \* a key typed at a live screen in two reads within the timeout, a resize notification between them
+           LET plain == {d \in {st.dec[i] : i \in 1..Len(st.dec)} : d[1] = e.bytes} IN
+           <<st, IF e.late \/ plain = {} \/ \E d \in plain, k \in 1..Len(e.tries) : e.tries[k] = d[2] THEN {}
+                 ELSE {Dev("C03.decode", "live_split_with_resize", <<e.bytes, e.cuts, e.tries>>)}>>
       [] e.ev = "PairDecode" ->
            LET a == SubSeq(e.bytes, 1, e.cuts[1])
                b == SubSeq(e.bytes, e.cuts[1] + 1, Len(e.bytes))
